@@ -138,6 +138,68 @@ def enc_coverage(ev, n):
     return cover
 
 
+# ------------------------------------------------------------------------------- decoder sweep (audit)
+def decoder_sweep_prevs(tables, lsb, tier):
+    """representative predecessors for the decoder sweep: code words the real encoder produced for a comma
+    (K.28.5), K.x.7 words (the A7 sub-block 0111 / 1000 with k detected from the 6b part), K.28.7, data words
+    that use the alternate D.x.A7 sub-block (the six 6b exclusions of the k detection), a plain data word and
+    two words of impossible weight.  Stimulus only."""
+    tab = [t for t in tables["tabs"] if t["lsb"] == lsb][0]
+
+    def cw(d, k, rd):
+        return tab["enc"][k][d][rd][0]
+    P = [cw(0xBC, 1, 0), cw(0xF7, 1, 1), cw(0xF1, 0, 0), 0x3ff]
+    if tier != "quick":
+        P += [cw(0xBC, 1, 1), cw(0xFC, 1, 0), cw(0xFC, 1, 1), cw(0xFE, 1, 0), cw(0xEB, 0, 1), cw(0xF4, 0, 0),
+              cw(0x00, 0, 0), 0x000]
+    out = []
+    for w in P:
+        if w not in out:
+            out.append(w)
+    return out
+
+
+def decoder_sweep_schedule(prevs):
+    """[ce, w] per cycle: for every predecessor p and EVERY ten-bit word w:  p and w sampled at consecutive
+    enabled edges (the decoder's registers are in the state p left, not in the reset state), then no stall /
+    one stalled cycle showing the complement of w / two stalled cycles (complement, p) - rotating, so that
+    with >= 3 predecessors every w is also held through stalls of length 1 and 2 while the input shows a word
+    of another weight class."""
+    sched = []
+    for pi, p in enumerate(prevs):
+        for w in range(1024):
+            sched.append([1, p])
+            sched.append([1, w])
+            v = (w + pi) % 3
+            if v >= 1:
+                sched.append([0, w ^ 0x3ff])
+            if v == 2:
+                sched.append([0, p if p != w else w ^ 0x155])
+    sched.append([1, 0])
+    sched.append([0, 0])
+    return sched
+
+
+def decoder_sweep_coverage(ev):
+    """vacuity witness, measured on the recorded events [ce, w, d, k, invalid] (no verdict):
+       pairs  (p, w) sampled at two consecutive enabled cycles
+       held   w sampled, then a stalled cycle whose input is a different word"""
+    pairs, held = set(), {}
+    for a, b in zip(ev, ev[1:]):
+        if a[0] == 1 and b[0] == 1:
+            pairs.add((a[1], b[1]))
+    i = 0
+    while i < len(ev):
+        if ev[i][0] == 1:
+            j = i + 1
+            while j < len(ev) and ev[j][0] == 0 and ev[j][1] != ev[i][1]:
+                j += 1
+            if j - i - 1 >= 1:
+                held[ev[i][1]] = max(held.get(ev[i][1], 0), j - i - 1)
+        i += 1
+    return pairs, held
+
+
 # ------------------------------------------------------------------------------- stream wrappers
 def make(spec):
     """G-mode / T-mode factory of the stream wrappers.
@@ -231,9 +293,37 @@ def stream_configs(tier, tables):
     return L
 
 
-def stream_trace(spec, cfg, ncycles, rnd, pvalid, pready):
+def stream_witnesses(ev, kind):
+    """vacuity witnesses of a recorded wrapper trace [iv, o] (no verdict): back-pressured cycles (output valid,
+    consumer not ready), the longest such stall, idle cycles between tokens, idle cycles that carry a non-zero
+    payload, offers that had to wait for sink.ready"""
+    w = {"backpressure_cycles": 0, "longest_stall": 0, "idle_cycles": 0, "idle_cycles_with_payload": 0,
+         "offers_waiting": 0}
+    run = 0
+    seen = False
+    for iv, o in ev:
+        if o[1] == 1 and iv[3] == 0:
+            w["backpressure_cycles"] += 1
+            run += 1
+            w["longest_stall"] = max(w["longest_stall"], run)
+        else:
+            run = 0
+        if iv[0] == 1:
+            seen = True
+            if o[0] == 0:
+                w["offers_waiting"] += 1
+        elif seen:
+            w["idle_cycles"] += 1
+            if any(iv[4:]):
+                w["idle_cycles_with_payload"] += 1
+    return w
+
+
+def stream_trace(spec, cfg, ncycles, rnd, pvalid, pready, runs=None):
     """ordinary Migen simulation (run_simulation with a generator) of a real wrapper at the full
-    alphabet with random valid/ready; logs [iv, o] per cycle in the layout of make()."""
+    alphabet with random valid/ready; logs [iv, o] per cycle in the layout of make().
+    runs = r: bursty schedule - the consumer's ready and the producer's gaps keep their previous decision
+    with probability 1 - 1/r (long stalls and long idle gaps instead of independent coin flips)."""
     from litex.gen.sim.core import run_simulation
     dut, ins, outs = make(spec)
     n = spec["n"]
@@ -248,6 +338,18 @@ def stream_trace(spec, cfg, ncycles, rnd, pvalid, pready):
             return out
         return [rnd.randrange(1024) for _ in range(n)]
 
+    sticky = {"rdy": 1, "gap": 0}
+
+    def ready_now():
+        if runs is None or rnd.random() < 1.0 / runs:
+            sticky["rdy"] = 1 if rnd.random() < pready else 0
+        return sticky["rdy"]
+
+    def offer_now():
+        if runs is None or rnd.random() < 1.0 / runs:
+            sticky["gap"] = 0 if rnd.random() < pvalid else 1
+        return not sticky["gap"]
+
     def gen():
         cur = None
         for cyc in range(ncycles):
@@ -261,13 +363,13 @@ def stream_trace(spec, cfg, ncycles, rnd, pvalid, pready):
                 ev.append([[int(x) for x in vals], [int(x) for x in o]])
             if cur is not None and vals[0] == 1 and o[0] == 1:
                 cur = None
-            if cur is None and rnd.random() < pvalid:
+            if cur is None and offer_now():
                 cur = [rnd.randint(0, 1) if cfg["fl"] else 0, rnd.randint(0, 1) if cfg["fl"] else 0] + payload()
             if cur is None:
                 idle = payload() if cfg["idle"] == "any" else [0] * (len(ins) - 4)
-                nv = [0, 0, 0, 1 if rnd.random() < pready else 0] + idle
+                nv = [0, 0, 0, ready_now()] + idle
             else:
-                nv = [1, cur[0], cur[1], 1 if rnd.random() < pready else 0] + cur[2:]
+                nv = [1, cur[0], cur[1], ready_now()] + cur[2:]
             for s, x in zip(ins, nv):
                 yield s.eq(x)
             yield
